@@ -342,8 +342,7 @@ inline bool do_decode(optional<T>& x, const uint8_t*& pos, const uint8_t* end)
     {
         return decoder<E, T>::decode(*x, pos, end);
     }
-    pos = pos + codec_traits<T>::size;
-    return true;
+    return do_decode_advance(codec_traits<T>::size, pos, end);
 }
 
 template <endianness E, typename T>
